@@ -186,6 +186,48 @@ theorem tsText_run_val (t : Nat) (stk : List Ctx) : run ⟨.val, stk⟩ (tsText 
   · split <;> rfl
   · simp [run, step, digit_isDigit]
 
+/-! ## the time stamp reads back exactly -/
+
+theorem digitsVal_append (a : List Nat) (d : Nat) :
+    digitsVal (a ++ [d]) = digitsVal a * 10 + (d - 48) := by
+  simp [digitsVal, List.foldl_append]
+
+theorem allDigits_append (a b : List Nat) : allDigits (a ++ b) = (allDigits a && allDigits b) := by
+  simp [allDigits]
+
+theorem allDigits_digit (n : Nat) : allDigits [digit n] = true := by
+  have h : 48 + n % 10 ≤ 57 := by omega
+  simp [allDigits, digit, h]
+
+/-- `%lu`: the digits read back as the number, for every number -/
+theorem decF_val : ∀ f n, n < f →
+    digitsVal (decF f n) = n ∧ allDigits (decF f n) = true ∧ decF f n ≠ []
+  | 0, n, h => by omega
+  | f + 1, n, h => by
+    unfold decF
+    split
+    · rename_i h10
+      refine ⟨?_, allDigits_digit n, by simp⟩
+      simp only [digitsVal, List.foldl, digit]; omega
+    · rename_i h10
+      obtain ⟨a, b, _⟩ := decF_val f (n / 10) (by omega)
+      refine ⟨?_, ?_, by simp⟩
+      · rw [digitsVal_append, a]; simp only [digit]; omega
+      · rw [allDigits_append, b, allDigits_digit]; rfl
+
+theorem dec_val (n : Nat) : digitsVal (dec n) = n ∧ allDigits (dec n) = true ∧ dec n ≠ [] :=
+  decF_val (n + 1) n (by omega)
+
+/-- `%03d` of a value below 1000 -/
+theorem pad3_val (m : Nat) (h : m < 1000) :
+    digitsVal (pad3 m) = m ∧ allDigits (pad3 m) = true ∧ (pad3 m).length = 3 := by
+  refine ⟨?_, ?_, rfl⟩
+  · simp only [digitsVal, pad3, List.foldl, digit]; omega
+  · have h1 : 48 + m / 100 % 10 ≤ 57 := by omega
+    have h2 : 48 + m / 10 % 10 ≤ 57 := by omega
+    have h3 : 48 + m % 10 ≤ 57 := by omega
+    simp [allDigits, pad3, digit, h1, h2, h3]
+
 end Uft.Json
 
 namespace Uft.Json
